@@ -110,7 +110,7 @@ def gen_case(rng, big=False, reacts=True):
             frames.append(dict(t=t[0], pokes=pokes, pos=rng.randrange(4),
                                org=rng.choice(['proc', 'proc', 'event', 'coro']), act=act))
         ops.append(['start', frames, rng.choice(['quit', 'quit', 'other']), start_rs])
-    return dict(nps=nps, ops=ops)
+    return dict(nps=nps, ops=ops, clock=rng.choice(['float', 'float', 'int', 'hugeint', 'fraction']))
 
 
 def gen(rng, tier):
@@ -160,8 +160,27 @@ def mutate(case, rng):
 
 
 # --------------------------------------------------------- the implementation
+# the Python type of the readings of the time function; scale = what one unit of the
+# model's clock (an integer reading t) is worth: reading = base + t / scale
+CLOCKS = {'float': 8, 'int': 1, 'hugeint': 1, 'fraction': 3}
+
+
+def reading(kind, t):
+    from fractions import Fraction
+    if kind == 'int':
+        return t
+    if kind == 'hugeint':
+        return 2 ** 60 + t
+    if kind == 'fraction':
+        return Fraction(t, 3)
+    return t / 8.0
+
+
 def run(case):
     import desper
+    from fractions import Fraction
+    clock = case.get('clock', 'float')
+    scale = CLOCKS[clock]
 
     class Boom(Exception):
         pass
@@ -254,8 +273,13 @@ def run(case):
 
         def process(self, dt):
             w = self.world
-            d8 = dt * 8
-            st.log.append(['proc', wid(w), self.idx, int(d8) if d8 == int(d8) else repr(dt)])
+            # the value of dt, exactly (its Python type is not part of the property)
+            try:
+                d8 = Fraction(dt) * scale
+            except (TypeError, ValueError):
+                d8 = None
+            st.log.append(['proc', wid(w), self.idx,
+                           int(d8) if d8 is not None and d8.denominator == 1 else repr(dt)])
             f = st.cur
             np_ = w.verif_np
             pos = np_ - 1 if f['org'] == 'coro' else f['pos'] % np_
@@ -314,7 +338,7 @@ def run(case):
         if st.frames:
             st.cur = st.frames.pop(0)
             st.log.append(['clock', st.cur['t'], w, h])
-            return st.cur['t'] / 8.0
+            return reading(clock, st.cur['t'])
         st.log.append(['clockend', st.end, w, h])
         if st.end == 'quit':
             raise desper.Quit()
@@ -529,6 +553,7 @@ def stats(cases, traces):
     def inc(k):
         d[k] = d.get(k, 0) + 1
     for c in cases:
+        inc('clock.' + c.get('clock', 'float'))
         nstarts = 0
         for o in c['ops']:
             if o[0] == 'top':
